@@ -182,6 +182,16 @@ def stack_usage(ctx, f):
                 and resolves_to(ctx, f, n.value.func, FSTACK):
             ctor, var = n.value, n.targets[0].id
             break
+    if ctor is None:
+        # constructed inline as an argument / receiver: still a per-call object
+        for n in own_nodes(f.node):
+            if isinstance(n, ast.Call) and resolves_to(ctx, f, n.func, FSTACK):
+                ctor = n
+                # the name the result of build_filter_stack(...) is bound to, if any
+                for a in own_nodes(f.node):
+                    if isinstance(a, ast.Assign) and is_name(a.targets[0]) and any(x is n for x in ast.walk(a.value)):
+                        var = a.targets[0].id
+                break
     return ctor, var
 
 
@@ -222,6 +232,12 @@ def check_parse_pipeline(ctx, rid):
     for attr in ('preprocess', 'stmtprocess', 'postprocess'):
         st = [s for s in init.node.body if isinstance(s, ast.Assign) and is_attr(s.targets[0], attr, 'self')]
         ok = len(st) == 1 and isinstance(st[0].value, ast.List) and not st[0].value.elts
+        if len(st) == 1 and isinstance(st[0].value, ast.IfExp):
+            # `[X()] if strip_semicolon else []`: empty unless the (default False) flag is set
+            v = st[0].value
+            sp_ = init.params[1] if len(init.params) > 1 else None
+            dflt = init.node.args.defaults and isinstance(init.node.args.defaults[-1], ast.Constant) and init.node.args.defaults[-1].value is False
+            ok = is_name(v.test, sp_) and bool(dflt) and isinstance(v.orelse, ast.List) and not v.orelse.elts and isinstance(v.body, ast.List)
         ctx.ob(rid, f'FilterStack.__init__:{attr}', _loc(init, init.node), f'self.{attr} starts as a fresh empty list', ok,
                f'`{src(st[0]) if st else "missing"}`')
     st = [s for s in init.node.body if isinstance(s, ast.Assign) and is_attr(s.targets[0], '_grouping', 'self')]
